@@ -3,7 +3,7 @@ SPEC = {
     "coq_props": ["Properties/C08.v", "Corr/C08.v"],
     "module": "MS.Properties.C08",
     "theorems": ["C08_lww", "C08_spec_ascending", "C08_spec_last_write", "C08_stamp", "C08_guard_split",
-                 "C08_refuted", "C08_refuted_daily_jan1", "C08_refuted_prevyear", "C08_refuted_4H"],
+                 "C08_timeframes_queryable", "C08_refuted", "C08_refuted_daily_jan1"],
     "corr_require": "Require Import MS.Corr.C08.",
     "agrees": "C08.agrees",
     "in_domain": "C08.in_domain",
@@ -35,11 +35,11 @@ SPEC = {
     ],
     "level": "proof",
     "level_text": "Coq theorem C08_lww: for EVERY timeframe dividing a day, record length and write history (any number of requests, rows in any "
-                  "order, duplicates, years 1970-2369) outside the three guarded defect classes, the all-time query of the model of "
+                  "order, duplicates, years 1970-2369) outside the guarded defect class (daily bars dated January 1), the all-time query of the model of "
                   "WriteCSM/WriteRecords/WriteBufferToFile + NewIOPlan/packingReader equals the last-writer-wins interval map "
                   "(C08_spec_ascending: strictly ascending interval starts; C08_spec_last_write: each interval carries its last write; "
                   "C08_stamp: stamped with the interval start). Proved by refinement, induction over the request list. "
-                  "C08_refuted_daily_jan1 / _prevyear / _4H exhibit the defects, each with the other two guards in place. The model is tied "
+                  "C08_refuted_daily_jan1 exhibits the remaining defect; C08_timeframes_queryable: every utils.Timeframes entry is its own queryable timeframe (the 4H/2H order defect found here was fixed in d275195; the prevYear defect F3 in 49eddda, C08_cross_year_regression). The model is tied "
                   "to the code by translation of IndexToOffset and differential in-Coq evaluation on every run.",
     "level_note": "No axioms. Trusted: Coq kernel/VM, gen translator, harness. Modelled not verified: executor/writer.go WriteRecords/"
                   "WriteBufferToFile, executor/scanner.go NewIOPlan/packingReader/readForward, utils/io/timeindex.go (UTC), "
